@@ -173,75 +173,52 @@ def t3_parser(ctx, R='C05.T3'):
     if not (init_ok and rng and rng[1:] == (0, 65536, 1) and ti and ti[0] > 16):
         ctx.report(R, f, lp, 'GenerateParser range', 'opcode loop is not `for (wider-than-16-bit i = 0; i < 0x10000; ++i)`: init %s cond %s inc %s type %s'
                    % (r.s(lp.get('init')), cond, inc, var.get('t') if var else None))
-    body = lp['body'].get('body', [])
-    txt = [r.s(st) for st in body]
-    # o = (u16)opcode
+    # the loop body as guarded effects (E11): what is stored in the node reached by the token walk, and when
+    from .. import summ, boolform
+    r2 = Renderer(f, inline_locals='pure')
     ctx.inst(R)
-    ovar = None
-    for st in body:
-        for v in (st.get('vars', []) if st.get('k') == 'decl' else []):
-            if r.r(v.get('init')) == vn and type_info(v.get('t')) == (16, False):
-                ovar = 'l:' + v['name']
-    if ovar is None:
-        ctx.report(R, f, lp, 'GenerateParser opcode', 'the 16-bit opcode is not the loop variable itself')
-        return
-    exp_var = tok_var = None
-    for st in body:
-        for v in (st.get('vars', []) if st.get('k') == 'decl' else []):
-            t = r.r(v.get('init'))
-            if t == '(call Teakra::Disassembler::NeedExpansion %s)' % ovar:
-                exp_var = 'l:' + v['name']
-            if t.startswith('(call Teakra::Disassembler::GetTokenList %s 0 ' % ovar):
-                tok_var = 'l:' + v['name']
-    ctx.inst(R)
-    if exp_var is None or tok_var is None:
+    toks = [v for v in walk(lp['body']) if v.get('k') == 'var' and isinstance(v.get('init'), dict)
+            and r2.r(v['init']).startswith('(call Teakra::Disassembler::GetTokenList %s 0 ' % vn)]
+    if len(toks) != 1:
         ctx.report(R, f, lp, 'GenerateParser sources', 'tokens / expansion flag are not GetTokenList(o) / NeedExpansion(o) of the loop opcode')
         return
-    # continues: exactly two, the [ERROR] filter and the duplicate guard
-    conts = []
-    from ..astq import walk_parents
-    for n, parents in walk_parents(lp['body']):
-        if n.get('k') == 'continue':
-            ifs = [p for p in parents if p.get('k') == 'if']
-            conts.append((n, ifs[-1] if ifs else None))
+    tok_var = 'l:' + toks[0]['name']
+    SM = summ.summary_of(ctx, f, [lp['body']], asserts='ignore')
+    eff = SM.effect_conditions(lambda e: e[0] == 'write' and 'Teakra::ParserImpl::Node::' in e[1])
+    stores = {e[1].rsplit('::', 1)[-1].rstrip(')'): (e, c) for e, c in eff.items()}
     ctx.inst(R)
-    kinds = []
-    for n, iff in conts:
-        c = r.r(iff.get('cond')) if iff else 'unconditional'
-        if 'std::any_of' in c and tok_var[2:] in c:
-            lam = [x for x in walk(iff['cond']) if x.get('k') == 'lambda']
-            ok = False
-            for x in lam:
-                for fid, g in ctx.F['functions'].items():
-                    if fid.startswith(x['fn'].split('<lambda@')[0]) and ('<lambda@' + x['fn'].split('<lambda@')[1].split('>')[0]) in fid and g.get('body'):
-                        if '"[ERROR]"' in render_stmt(g['body'], g):
-                            ok = True
-            kinds.append('error-filter' if ok else 'unknown-filter')
-        elif c.endswith('Teakra::ParserImpl::Node::end)') and c.startswith('(. l:'):
-            kinds.append('duplicate')
-            th = r.s(iff.get('then'))
-            if '(assert (== (& (. l:' not in th or '(~ %s)) 0))' % ovar not in th:
-                ctx.report(R, f, iff, 'GenerateParser duplicate guard', 'a later opcode with the same text is skipped without checking that it only adds (unused) bits: ' + th[:200])
-        else:
-            kinds.append('other:' + c[:80])
-    if sorted(kinds) != ['duplicate', 'error-filter']:
-        ctx.report(R, f, lp, 'GenerateParser skips', 'the loop skips insertions under %s; expected exactly the [ERROR] filter and the first-opcode-wins guard' % kinds)
-    # stores
+    if len(eff) != 3 or set(stores) != {'end', 'opcode', 'expansion'} or len({e[1].rsplit(' ', 1)[0] for e in eff}) != 1 \
+            or stores['end'][0][2:] != ('=', '1') or stores['opcode'][0][2:] != ('=', vn) \
+            or stores['expansion'][0][2:] != ('=', '(call Teakra::Disassembler::NeedExpansion %s)' % vn):
+        ctx.report(R, f, lp, 'GenerateParser stores', 'the node does not store end / opcode = o / expansion = NeedExpansion(o): %s' % sorted(eff)[:3])
+        return
+    # when: not an [ERROR] rendering, and the node has no opcode yet (first opcode per text wins) - nothing else
     ctx.inst(R)
-    st_txt = ' '.join(txt)
-    cur = None
-    for st in body:
-        if st.get('k') == 'assign' and r.r(st['lhs']).endswith('Teakra::ParserImpl::Node::opcode)'):
-            cur = r.r(st['lhs']).split(' ')[1]
-    need = ['(= (. %s Teakra::ParserImpl::Node::end) 1)', '(= (. %s Teakra::ParserImpl::Node::opcode) ' + ovar + ')',
-            '(= (. %s Teakra::ParserImpl::Node::expansion) ' + exp_var + ')']
-    if cur is None or not all((n_ % cur) in st_txt for n_ in need):
-        ctx.report(R, f, lp, 'GenerateParser stores', 'the node does not store end / opcode = o / expansion = NeedExpansion(o)')
-    # the duplicate guard must precede the stores
-    idx_guard = [i for i, st in enumerate(body) if st.get('k') == 'if' and r.r(st.get('cond')).endswith('Teakra::ParserImpl::Node::end)')]
-    idx_store = [i for i, st in enumerate(body) if st.get('k') == 'assign' and r.r(st['lhs']).endswith('Node::opcode)')]
-    if not idx_guard or not idx_store or idx_guard[0] > idx_store[0]:
-        ctx.report(R, f, lp, 'GenerateParser first-wins', 'the stored opcode is not protected by the first-opcode-wins guard')
+    err_lams = []
+    for x in walk(lp['body']):
+        if x.get('k') == 'lambda':
+            for fid, g in ctx.F['functions'].items():
+                if fid.startswith(x['fn'].split('<lambda@')[0]) and ('<lambda@' + x['fn'].split('<lambda@')[1].split('>')[0]) in fid and g.get('body'):
+                    if '"[ERROR]"' in render_stmt(g['body'], g):
+                        err_lams.append(x)
+    node = stores['end'][0][1].rsplit(' ', 1)[0]
+    END = node + ' Teakra::ParserImpl::Node::end)'
+    for nm, (e, c) in sorted(stores.items()):
+        lits = boolform.literals(c)
+        okc = lits is not None and len(lits) == 2 and (END, False) in lits
+        if okc:
+            other = [a for a, pol in lits if a != END]
+            okc = len(other) == 1 and (other[0], False) in lits and 'std::any_of' in other[0] \
+                and (tok_var in other[0] or '(call Teakra::Disassembler::GetTokenList %s 0 ' % vn in other[0]) and bool(err_lams)
+        if not okc:
+            ctx.report(R, f, lp, 'GenerateParser skips', 'node.%s is stored when %s; expected exactly: not an [ERROR] rendering and the text has no opcode yet'
+                       % (nm, boolform.show(c)[:200]))
+            break
+    # a later opcode with the same text is dropped only after checking that it adds nothing but (unused) bits
+    ctx.inst(R)
+    asserts = [r2.s(x) for x in walk(lp['body']) if x.get('k') == 'assert']
+    if not any('(assert (== (& (. ' in t and '(~ %s)) 0))' % vn in t for t in asserts):
+        ctx.report(R, f, lp, 'GenerateParser duplicate guard', 'a later opcode with the same text is skipped without checking that it only adds (unused) bits: ' + str(asserts)[:200])
     # Parse
     pf = [g for k, g in ctx.F['functions'].items() if k.startswith('Teakra::ParserImpl::Parse(')]
     ctx.require(len(pf) == 1, 'ParserImpl::Parse not found')
@@ -254,6 +231,23 @@ def t3_parser(ctx, R='C05.T3'):
                       r'Teakra::Parser::Opcode::Valid\) \(\. l:(\S+) Teakra::ParserImpl::Node::opcode\)\}')
     good = [x for x in rets if (lambda m: m and m.group(1) == m.group(2))(pat.match(x))]
     bad = [x for x in rets if not x.startswith('{Teakra::Parser::Opcode::Invalid') and x not in good]
+    if not good and len(bad) == 2:
+        # the same selection written as two guarded returns: ValidWithExpansion under node.expansion, Valid under !node.expansion
+        from ..guards import guards_at
+        pat2 = _re.compile(r'^\{Teakra::Parser::Opcode::(ValidWithExpansion|Valid) \(\. l:(\S+) Teakra::ParserImpl::Node::opcode\)\}')
+        seen = {}
+        for n in walk(g['body']):
+            if n.get('k') != 'return':
+                continue
+            m = pat2.match(render(n['e'], g, inline_locals=False))
+            if not m:
+                continue
+            gs = {(render(c, g, inline_locals=False), pol) for c, pol, src in guards_at(g['body'], n)}
+            want_pol = m.group(1) == 'ValidWithExpansion'
+            if ('(. l:%s Teakra::ParserImpl::Node::expansion)' % m.group(2), want_pol) in gs:
+                seen[m.group(1)] = m.group(2)
+        if set(seen) == {'ValidWithExpansion', 'Valid'} and len(set(seen.values())) == 1:
+            good, bad = ['two guarded returns'], []
     if len(good) != 1 or bad:
         ctx.report(R, g, g['body'], 'ParserImpl::Parse', 'Parse returns something other than the stored opcode / expansion or Invalid: %s' % rets)
 
